@@ -35,11 +35,13 @@ def run(ctx):
                            'after long histories.'}
 
 
-def pairing(ctx, rule):
+def pairing(ctx, rule, only=None):
     """Every write of X.contents is followed, on every path to a normal exit, by a recompute of X.volume."""
     model = ctx.model
     count = 0
     for m in model.cls('Container').methods.values():
+        if only is not None and m.name not in only:
+            continue
         ff = ctx.flow(m.qualname)
         cs = contents_stores(ff)
         objs = {}
@@ -67,6 +69,8 @@ def pairing(ctx, rule):
                        key=f"volume recompute for {okey}")
     # units of the recompute (engine U)
     for q in ('Container._self_add', 'Container._transfer', 'Container.remove', 'Container.__init__'):
+        if only is not None and q.split('.')[1] not in only:
+            continue
         sc = targets.scan(ctx, q)
         uscan.report_sinks(ctx, lambda cat: rule if cat in ('store-volume', 'store-contents', 'convert-from-unit',
                                                             'storage-label', 'sum-mix', 'add-units', 'qstr') else None, sc)
